@@ -33,7 +33,8 @@ def atheris_available() -> bool:
 
 def run_campaign(acc, script: str, *, runs: int, seed: int, recheck, known,
                  max_len: int = 96, dictionary: list[str] | None = None,
-                 seeds: list[bytes] | None = None, decode=None, timeout: int = 1500) -> None:
+                 seeds: list[bytes] | None = None, decode=None, timeout: int = 1500,
+                 extra_args: list[str] | None = None) -> None:
     if not atheris_available():
         acc.notes.append("atheris not importable: fuzz campaign skipped")
         return
@@ -51,7 +52,7 @@ def run_campaign(acc, script: str, *, runs: int, seed: int, recheck, known,
         argv = ["/venv/bin/python", os.path.join(VERIF, script), corpus,
                 f"-runs={runs}", f"-seed={seed % (2**31 - 1) or 1}", f"-max_len={max_len}",
                 f"-artifact_prefix={arts}", "-print_final_stats=1", "-timeout=30",
-                "-rss_limit_mb=4096"]
+                "-rss_limit_mb=4096"] + list(extra_args or [])
         if dictionary:
             dpath = os.path.join(work, "dict.txt")
             with open(dpath, "w") as fh:
@@ -64,7 +65,8 @@ def run_campaign(acc, script: str, *, runs: int, seed: int, recheck, known,
             argv.append(f"-dict={dpath}")
         env = dict(os.environ)
         env["VERIF_FUZZ_STATS"] = stats
-        env["PYTHONPATH"] = os.pathsep.join([VERIF, os.path.join(VERIF, ".deps")])
+        env["PYTHONPATH"] = os.pathsep.join(([os.environ["VERIF_REPO"]] if os.environ.get("VERIF_REPO") else [])
+                                            + [VERIF, os.path.join(VERIF, ".deps")])  # VERIF_REPO: mutation testing only
         try:
             proc = subprocess.run(argv, env=env, capture_output=True, text=True,
                                   errors="replace", timeout=timeout)
